@@ -277,10 +277,20 @@ func apiReachable(r *Run) map[*ssa.Function]bool {
 		for _, n := range []string{"Load", "Store", "LoadOrStore", "LoadAndStore", "LoadOrCompute", "Compute", "LoadAndDelete", "Delete", "Range", "Clear", "Size"} {
 			visit(mm.Methods[n])
 		}
-		// every other exported method of the map type is API too (a method added later must not escape the rules)
-		for _, f := range r.P.Funcs {
-			if f.Pkg == r.P.Xsync && f.Parent() == nil && f.Signature.Recv() != nil && f.Object() != nil && f.Object().Exported() && core.NamedOf(f.Signature.Recv().Type()) == mm.Name {
-				visit(f)
+		// ... and whatever else the public interface of this map (cache.Map / cache.MapOf) lists: a method added to the
+		// interface later is API, an exported method of the internal type that the interface does not list is not
+		if mm.Iface != "" {
+			if obj := r.P.Cache.Pkg.Scope().Lookup(mm.Iface); obj != nil {
+				if it, ok := obj.Type().Underlying().(*types.Interface); ok {
+					for i := 0; i < it.NumMethods(); i++ {
+						name := it.Method(i).Name()
+						for _, f := range r.P.Funcs {
+							if f.Pkg == r.P.Xsync && f.Parent() == nil && f.Signature.Recv() != nil && f.Name() == name && core.NamedOf(f.Signature.Recv().Type()) == mm.Name {
+								visit(f)
+							}
+						}
+					}
+				}
 			}
 		}
 	}
